@@ -20,7 +20,7 @@ Line-protocol driver of the C12 sharding model.  Numbers are decimal.
     getc <parent> <child>           -> getc<i>=<parent>><child> ok | ... error <code> shard <key>   (GetFromComposite)
     dump                            -> the constructor's internal list: <keyhash>:<weight>:<index> ... in stored order
 
-A digest is `<instance>:<hexhash>:<size>` (instance may be empty).  Output lists are sorted and
+A digest is `<instance>:<digest function enum>:<hexhash>:<size>` (instance may be empty).  Output lists are sorted and
 deduplicated (presentation only; the real code works on sorted sets).
 -/
 open BB.Driver BB.Sharding BB.Gen.Rendezvous
@@ -53,14 +53,15 @@ def u32? (s : String) : Option UInt32 := do
 
 def digest? (tok : String) : Option Digest :=
   match splitOnChar ':' tok with
-  | [inst, hx, sz] => do
+  | [inst, fn, hx, sz] => do
+    let f ← nat? fn
     let bs ← hexBytes? hx
     let n ← nat? sz
-    some ⟨inst, bs.map UInt8.ofNat, n⟩
+    some ⟨inst, f, bs.map UInt8.ofNat, n⟩
   | _ => none
 
 def showDigest (d : Digest) : String :=
-  s!"{d.instanceName}:{bytesHex (d.hashBytes.map UInt8.toNat)}:{d.sizeBytes}"
+  s!"{d.instanceName}:{d.function}:{bytesHex (d.hashBytes.map UInt8.toNat)}:{d.sizeBytes}"
 
 def shard? (tok : String) : Option (Entry String) :=
   match splitOnChar ':' tok with
@@ -133,7 +134,7 @@ def step (s : S) (line : String) : S × String :=
     | _, _ => (s, "bad-op")
   | ["route", hx] =>
     match hexBytes? hx, s.sel with
-    | some bs, some sel => (s, toString (shardOf sel ⟨"", bs.map UInt8.ofNat, 0⟩))
+    | some bs, some sel => (s, toString (shardOf sel ⟨"", 0, bs.map UInt8.ofNat, 0⟩))
     | _, _ => (s, "bad-op")
   | "fmans" :: i :: "missing" :: toks =>
     match nat? i, toks.mapM digest? with
